@@ -108,6 +108,8 @@ def gen_model(rng, features=None):
         c = dict(name=name, bases=list(bases), registered=registered, kind='plain', params=params,
                  all_params=params, extra=(rng.random() < 0.15), abstract=abstract,
                  define_init=True)
+        if c['extra'] and rng.random() < 0.5:
+            c['extra_early'] = True
         if hooks and rng.random() < 0.2:
             c['savorize'] = gen_savorize(rng, c)
         if hooks and rng.random() < 0.12:
@@ -132,6 +134,8 @@ def gen_model(rng, features=None):
             c = dict(name=name, bases=[], registered=True, kind='enum',
                      members=rng.sample(['red', 'green', 'blue', 'true', 'on', 'yes', 'null', 'A1'],
                                         rng.randint(1, 4)))
+            if rng.random() < 0.3:
+                c['str_mixin'] = True
         elif r < 0.22:
             c = dict(name=name, bases=[], registered=True,
                      kind=rng.choice(['str', 'userstring', 'yatimlstring']))
